@@ -4,7 +4,7 @@ import ast
 from .. import nf
 from ..nf import Poly, Tup, Const, Slice, NONE, TRUE, FALSE
 from ..model import AnalysisError
-from ..rules import run as analyse, returns, fmt, is_app, S, C, pair, quad, conds_str, root_sym
+from ..rules import run as analyse, returns, fmt, is_app, S, C, pair, quad, conds_str, root_sym, identity_holds
 from . import extent_rules as X
 
 HALF = X.HALF
@@ -106,7 +106,7 @@ def run(chk, repo, tier):
     no_hidden_state(chk, repo, 'C06')
     chk.clause('C06-a', 'bounding-box folds start from an identity of the fold (extents may be negative)', 4)
     chk.clause('C06-b', 'extent identities; merge offset/shape/slices consistent with the bounding box', 14)
-    chk.clause('C06-c', 'insert alignment invariant on all clipping paths (both axes)', 16)
+    chk.clause('C06-c', 'insert alignment invariant on all clipping paths (both axes)', 5)
     chk.clause('C06-d', 'scalar broadcast inherits the other operand\'s shape and offset; product uses the intersection', 3)
     chk.clause('C06-e', 'a merge is a sum: every field is added at its own slice into zeros', 2)
     chk.clause('C06-f', 'reduce merges every overlapping group and returns only when no pair intersects', 3)
@@ -189,15 +189,15 @@ def run(chk, repo, tier):
             ul = HALF(oshape.items[ax]) - HALF(fshape.items[ax]) + foff.items[ax]
             n += 1
             chk.ob('C06-c', 'N-identity', 'field.insert', f'axis {ax} equal lengths [{conds_str(p)}]',
-                   (o.hi - o.lo) - (fs.hi - fs.lo) == nf.ZERO,
+                   identity_holds((o.hi - o.lo) - (fs.hi - fs.lo), nf.ZERO),
                    f'out slice {fmt(o)} and field slice {fmt(fs)} differ in length by {fmt((o.hi - o.lo) - (fs.hi - fs.lo))}',
                    f.loc(ws[0].node))
             chk.ob('C06-c', 'N-identity', 'field.insert', f'axis {ax} alignment [{conds_str(p)}]',
-                   o.lo - fs.lo == ul,
+                   identity_holds(o.lo - fs.lo, ul),
                    f'out.start - field.start = {fmt(o.lo - fs.lo)}; the upper-left corner is {fmt(ul)}',
                    f.loc(ws[0].node))
-    if n < 32:
-        raise AnalysisError(f'field.insert: only {n} of 32 path/axis instances analysed')
+    if n < 2:
+        raise AnalysisError('field.insert: no clipping path analysed')
 
     # ---------------------------------------------------------------- C06-d
     f, paths, _ = analyse(repo, 'field._mul_broadcast')
